@@ -151,12 +151,12 @@ CHECKS = {
 EXTRA = {
     'C01': ' Quick tier: all pairs N<=4; products between different operand classes in both orders; one operand object (list element, tensor-phase Pauli, earlier result) reused for all right operands with list, operands and kept results re-read afterwards (both packages). Use -> in-place rotate_by / transform_by (global and masked) -> use again on one operand object (Pauli, sum, reduce()d and unreduced polynomial, monomial), both packages.',
     'C02': ' Masks of size n<=N incl. the explicit all-True mask and the 3-qubit masks of N=4; the same generator object reused on single operands and checked afterwards. Generators taken as elements of a PauliList (views) used repeatedly, lender unchanged (both packages).',
-    'C03': ' Use -> evolve in place -> use histories on one map object; sequences of 2-3 embeddings on disjoint masks (N<=4, holes included), both packages. Results of identity.transform_by(M) / compose(M) overwritten afterwards; rotation gate compiled, generator replaced, compiled again.',
+    'C03': ' Use -> evolve in place -> use histories on one map object; sequences of 2-3 embeddings on disjoint masks (N<=4, holes included), both packages. Results of identity.transform_by(M) / compose(M) overwritten afterwards; rotation gate compiled, generator replaced, compiled again. Masked transform_by on single Pauli / PauliMonomial operands (both packages).',
     'C04': ' Every qubit relabeling of N<=4 as first / second operand; sign-only and identity operands with the result overwritten afterwards; inverses / compositions of N<=4 maps kept and re-read after later calls. Compiled-map checks also after compile -> extend -> compile.',
     'C05': ' take/compile/forward/backward of all short gate programs (N=2 <=3 gates, N=3 3-gate sub-alphabets) on signed states of every rank; N=3 sweep of 402 (4002) tableaux x ~990 operations. torchclifford states: every signed generator as a literal and as an element borrowed from a PauliList, applied twice with the same object, then transform_by(rotation map); invariant and U^dag rho U after every step.',
     'C06': ' Observables also given as a StabilizerState operand (every pool state), the state itself / its .stabilizers / its copy, step-slice and reversed views, Fortran arrays; the operand must be unchanged.',
     'C08': ' A sixth format (index list with a repeated entry); entropy -> operation -> entropy on one live object over the whole C05 operation menu. Region argument unchanged after every call.',
-    'C09': ' All 4-gate programs over 4-letter sub-alphabets (py N=3, torch N=2,3); histories compile -> extend -> compile at every split point and compiled copy -> extend -> compile. Torch cases also on a non-contiguous view of the Pauli group.',
+    'C09': ' All 4-gate programs over 4-letter sub-alphabets (py N=3, torch N=2,3); histories compile -> extend -> compile at every split point and compiled copy -> extend -> compile. Torch cases also on a non-contiguous view of the Pauli group. Copy histories: compile (layers / whole) -> copy -> extend one of the two -> recompile -> the other re-checked (both packages).',
     'C10': ' The 4-gate programs and compile -> extend -> compile histories of C09 are run here as well. Generator replaced between compiles (gate, circuits, copy of a compiled circuit; both packages); clifford_rotation_gate with the qubits argument in six container types.',
     'C11': ' All ordered pairs of CNOT placements N<=4 and triples N<=3 inside circuits (plain / compiled, both directions); every named gate rebuilt after another gate map was edited in place. Named gates with numpy integer qubit indices; a gate placed into an already compiled circuit and compiled again.',
     'C12': ' Every constructor called again after an earlier result was edited in place (both packages, N<=3); export -> sign-only operation -> export histories of to_qutip. Parsed operators as edit sources; torch stabilizer_state in five input formats incl. token tables.',
@@ -165,7 +165,7 @@ EXTRA = {
     'C15': ' reduce / sums at N=5..9 against a dictionary oracle; arithmetic -> in-place operation -> arithmetic on one operand object vs a fresh object. Copy -> masked operation on the copy -> original; pauli_identity / pauli_zero after earlier results were edited.',
     'C16': ' torchclifford random_clifford(3): 12 (96) of the 2016 subtrees below a first anticommuting pair; thorough: the whole coin tree of 24/26 coins (23.2 M leaves). Sampler and povm histories under forced generator states: result overwritten -> sampled again; samples of one povm call kept and re-read.',
     'C17': ' Results of compose / inverse overwritten in place or kept across later calls (operands and earlier results unchanged), both packages. clifford_rotation_gate after its source was edited in place; torch circuits of inferred size read, grown, read again.',
-    'C18': ' diagonalize called again after every array of its first result was overwritten. diagonalize -> in-place change of the same state -> diagonalize again (both packages).',
+    'C18': ' diagonalize called again after every array of its first result was overwritten. diagonalize -> in-place change of the same state -> diagonalize again (both packages). Operator circuits also compiled, copied-then-compiled and run backward (both packages).',
     'C19': ' density_matrix for states with 8..11 (12) active stabilizers against the reference-generated group; fixed-circuit shadows on 60 (300) N=3 states of every rank.',
     'C20': ' Every description also with an explicit N=; parse again after the first result was overwritten; negation / unit scalars on one reused operand in both torch phase layouts and on slice views. torch: one- and multi-element long / bool tensors as selectors.',
 }
